@@ -18,7 +18,7 @@ ID = "C02"
 LEAN_MODULES = ["FaxVerif.C02.Theorems"]
 LEAN_SOURCES = ["FaxVerif/C02", "FaxVerif/Cpp"]
 DRIVER = cgroup.DRIVER
-SETUP_MODULES = ["FaxVerif.Cpp.Json", "FaxVerif.Gen.Render", "FaxVerif.C03.Spec", "FaxVerif.Cpp.Check"]  # what the driver imports
+SETUP_MODULES = cgroup.DRIVER_IMPORTS  # what the driver imports
 THEOREMS = [
     "FaxVerif.C02.wf_no_unbound",
     "FaxVerif.C02.wf_no_unbound_job",
